@@ -64,7 +64,11 @@ func Abs(ctx *expr.Context, input system.Collection, args ...expr.Expression) (s
 		}
 		// Absolution number
 		res := math.Abs(f)
-		return system.Collection{system.MustParseQuantity(fmt.Sprintf("%f", res), quantity[1])}, nil
+		unit := ""
+		if len(quantity) > 1 {
+			unit = strings.Join(quantity[1:], " ")
+		}
+		return system.Collection{system.MustParseQuantity(fmt.Sprintf("%f", res), unit)}, nil
 	}
 	return nil, errors.New("input is not a number")
 }
